@@ -131,7 +131,7 @@ class Ctx:
         cfgp = os.path.join(spec_dir, cfg)
         if overrides:
             cfgp = make_cfg(cfgp, overrides, self.scratch, "%s_%s" % (module, os.path.basename(cfg)))
-        r = tlc.run(spec_dir, module, cfgp, coverage=True, timeout=timeout or self.pick(300, 1500),
+        r = tlc.run(spec_dir, module, cfgp, coverage=True, timeout=timeout or self.pick(900, 3000),
                     workers=workers, **kw)
         self.cov["states"] += r.distinct
         self.cov["transitions"] += r.generated
@@ -163,7 +163,7 @@ class Ctx:
         if overrides:
             cfgp = make_cfg(cfgp, overrides, self.scratch, "%s_%s" % (module, os.path.basename(cfg)))
         dump = os.path.join(self.scratch, "%s_%d" % (module, len(os.listdir(self.scratch))))
-        r = tlc.run(spec_dir, module, cfgp, timeout=timeout or self.pick(300, 1500), dump=dump, workers=workers)
+        r = tlc.run(spec_dir, module, cfgp, timeout=timeout or self.pick(900, 3000), dump=dump, workers=workers)
         if not r.ok:
             raise Machinery("generation spec reported %s" % r.violation)
         self.cov["checker_cmd"].append("tlc -dump -config %s %s" % (cfg, module))
@@ -192,7 +192,7 @@ class Ctx:
         if overrides:
             cfgp = make_cfg(cfgp, overrides, self.scratch, "%s_%s" % (module, os.path.basename(cfg)))
         dump = os.path.join(self.scratch, "%s_%d" % (module, len(os.listdir(self.scratch))))
-        r = tlc.run(spec_dir, module, cfgp, timeout=timeout or self.pick(300, 1500), dump=dump, workers=workers,
+        r = tlc.run(spec_dir, module, cfgp, timeout=timeout or self.pick(900, 3000), dump=dump, workers=workers,
                     deadlock=False)
         if not r.ok:
             raise Machinery("generation spec reported %s" % r.violation)
@@ -216,7 +216,7 @@ class Ctx:
             cfgp = make_cfg(cfgp, overrides, self.scratch, "%s_sim_%s" % (module, os.path.basename(cfg)))
         d = os.path.join(self.scratch, "sim_%s_%d" % (module, len(os.listdir(self.scratch))))
         os.makedirs(d)
-        r = tlc.run(spec_dir, module, cfgp, timeout=timeout or self.pick(300, 1500), workers=1,
+        r = tlc.run(spec_dir, module, cfgp, timeout=timeout or self.pick(900, 3000), workers=1,
                     simulate={"num": num, "file": os.path.join(d, "tr")}, depth=depth, seed=self.seed + 1)
         if not r.ok:
             raise Machinery("simulation spec reported %s" % r.violation)
@@ -275,12 +275,12 @@ class Ctx:
         shards = shards or min(int(os.environ.get("VERIF_WORKERS", "16")), max(1, len(traces) // 50))
         byid = {t["id"]: t for t in traces}
         accepted, inv_viol = _validate_shards(spec_dir, module, cfgp, traces, shards, self.scratch,
-                                              timeout or self.pick(300, 1500), verbose=False, env=env)
+                                              timeout or self.pick(900, 3000), verbose=False, env=env)
         rejected = [t for t in traces if t["id"] not in accepted]
         verdict = {t["id"]: None for t in traces}
         if rejected:
             _, _, at = _validate_shards(spec_dir, module, cfgp, rejected, min(shards, len(rejected)), self.scratch,
-                                        timeout or self.pick(300, 1500), verbose=True, env=env)
+                                        timeout or self.pick(900, 3000), verbose=True, env=env)
             for t in rejected:
                 l = at.get(t["id"], 1)
                 evs = t["ev"]
